@@ -191,7 +191,7 @@ def extra_scenarios(ctx):
     out.append(dict(tree=[], inv=inv(stdin=True, type='text/html'), stdin=s2b(HTML_OK[1])))
     # every documented type, nested, in place and mirrored; hard-linked sibling of an in-place file must keep the old bytes
     allt = {'w/i.html': HTML_OK[1], 'w/s.css': CSS_OK[1], 'w/a.js': JS_OK[1], 'w/d.json': JSON_OK[0], 'w/p.svg': SVG_OK[0],
-            'w/f.xml': XML_OK[0], 'w/m.mjs': JS_OK[2], 'w/t.htm': HTML_OK[0], 'w/sub/deep/z.js': JS_OK[5], 'w/readme.md': '# x  y\n',
+            'w/f.xml': XML_OK[0], 'w/x.xhtml': '<html xmlns="http://www.w3.org/1999/xhtml"> <body> <p> hi </p> </body> </html>\n', 'w/m.mjs': JS_OK[2], 'w/t.htm': HTML_OK[0], 'w/sub/deep/z.js': JS_OK[5], 'w/readme.md': '# x  y\n',
             'w/.hid.js': 'var h = 1 ;', 'keep.js': ('h', 'w/a.js')}
     add(allt, inputs=['w/'], output='w/', r=True)
     add(allt, inputs=['w'], output='out/', r=True)
@@ -442,10 +442,8 @@ def run(ctx):
         evaluations=len(lines),
         distinct_nontrivial=len(nontrivial),
         rule='a case is (tree with contents, argument vector, stdin); non-trivial = at least one planned file is changed by the '
-             'library or fails to minify, and the run was accepted. Generators leave out one narrow known-defect construct (known/C20.txt): '
-             'the backup name <src>.bak of a file written onto itself is a source or destination of another task of the same run '
-             '(race between the workers). The constructs fixed by bdbfbd6/282e2ab/ec8cfb8/f8787e2 are generated again and their '
-             'former witnesses run as ordinary scenarios. Scenarios whose outcome the README does not determine '
+             'library or fails to minify, and the run was accepted. No construct is excluded: the witnesses of the fixed findings '
+             '(known/C19.ndjson) run as ordinary regression scenarios. Scenarios whose outcome the README does not determine '
              '(Plan.unspec/hazard) are never run.',
         samples=samples,
         scenarios_from_generator=sum(1 for x in scs if x['origin'] == 'gen'),
